@@ -200,6 +200,11 @@ func genC12(cs *CaseSet, rng *Rng, tier string, dir string) {
 				} else if rng.Intn(5) == 0 {
 					f = append(f, RField{114, []byte{0, 0, 0, 0}}) // Frogblast sends a zero chat ID for public chat
 				}
+				if rng.Bool() { // the order of the fields is the client's choice: the small ones may come before the text
+					for i, j := 0, len(f)-1; i < j; i, j = i+1, j-1 {
+						f[i], f[j] = f[j], f[i]
+					}
+				}
 				c.w.Send(105, f...)
 				barrier(c)
 				ops = append(ops, mkOp(2, "chat-send-public", be16(c.tok), msg, b1(emote)))
@@ -256,6 +261,11 @@ func genC12(cs *CaseSet, rng *Rng, tier string, dir string) {
 				f := []RField{{101, msg}, {114, chat}}
 				if emote {
 					f = append(f, RField{109, []byte{0, 1}})
+				}
+				if rng.Bool() { // the order of the fields is the client's choice: the small ones may come before the text
+					for i, j := 0, len(f)-1; i < j; i, j = i+1, j-1 {
+						f[i], f[j] = f[j], f[i]
+					}
 				}
 				c.w.Send(105, f...)
 				barrier(c)
